@@ -47,5 +47,9 @@ Seed15 == << Sw("FloatValueDataSource", <<1, 99991, 3>>, "combinatorial", FALSE,
 \* a same-operator group written as the RIGHT operand: 1 + (t + 2), 2 * (t * 3)
 Seed16 == << Sw("FloatValueDataSource", <<1, 2>>, "combinatorial", FALSE, <<"+", <<"c", 1>>, <<"+", <<"t">>, <<"c", 2>>>>>>),
              Sw("FloatValueDataSourceWithDefault", <<1, 2>>, "combinatorial", FALSE, <<"*", <<"c", 2>>, <<"*", <<"t">>, <<"c", 3>>>>>>) >>
-AllSeeds == {Seed16, Seed15, Seed14, Seed1, Seed2, Seed3, Seed4, Seed5, Seed6, Seed7, Seed8, Seed9, Seed10, Seed11, Seed12, Seed13}
+\* by_position over one literal sequence and from_context variables (the broadcast flag decides between cycling and rejection)
+Seed17 == << [Sw("FloatValueDataSource", <<1, 2>>, "by_position", FALSE, <<"*", <<"t">>, <<"c", 2>>>>) EXCEPT !.sweep.ctx2 = TRUE] >>
+\* a long explicit sequence with a value that is not a JSON type (token 88805 = the YAML date 2024-02-05) in the MIDDLE
+Seed18 == << Sw("FloatValueDataSource", <<1, 2, 3, 4, 88805, 6, 7, 8, 9>>, "combinatorial", FALSE, <<"c", 1>>) >>
+AllSeeds == {Seed18, Seed17, Seed16, Seed15, Seed14, Seed1, Seed2, Seed3, Seed4, Seed5, Seed6, Seed7, Seed8, Seed9, Seed10, Seed11, Seed12, Seed13}
 =============================================================================
